@@ -13,7 +13,7 @@ ID = "C03"
 RULE = (
     "case = abstract molecule (all families; labels up to 1e9 through the graph constructor; all "
     "118 elements; n up to 130/400) in a drawn listing order; oracle: parse(tucan(G)) has the "
-    "same atom/bond counts, is colour-preserving isomorphic to the ABSTRACT molecule (own "
+    "same atom/bond counts (also for EVERY coloured graph with n<=5 / n<=6 atoms over 3 colours - exhaustive small scope - and for molecules taken through the readers with explicitly written defaults), is colour-preserving isomorphic to the ABSTRACT molecule (own "
     "individualisation-refinement search, mapping verified edge by edge; VF2 cross-check for "
     "n<=10) and re-serialises to the identical string. Non-trivial = >=2 elements whose symbol "
     "order differs from Z order, or >=10 atoms, or >=2 labelled atoms of one element; distinct "
@@ -121,3 +121,30 @@ def check(case, stats):
         stats.label("formula_order!=Z_order")
     if (nonz and len(syms) >= 2) or n >= 10 or multi_lab:
         stats.mark_nontrivial(case_digest(case), {"mol": mol.brief(), "string": s[:240]})
+
+
+def smallscope_fn(mol):
+    from ..runner import Stats
+
+    check({"mol": mol.to_json(), "order": list(range(mol.n)), "post": "none", "producer": "graph"}, Stats())
+    return 1
+
+
+def replay_extra(rec, stats):
+    if "smallscope" in rec["case"]:
+        smallscope_fn(Mol.from_json(rec["case"]["smallscope"]))
+    else:
+        check(rec["case"], stats)
+
+
+def extra(ctx):
+    """Small-scope exhaustive sweep: the round trip for every coloured graph below the bound."""
+    from .. import smallscope
+    from ..runner import Stats
+
+    nmax, ncol = (5, 3) if ctx["tier"] == "quick" else (6, 3)
+    classes, evals, fails = smallscope.sweep(__name__, "smallscope_fn", nmax, ncol)
+    stats = Stats()
+    stats.evaluated(evals)
+    stats.label("smallscope_classes", classes)
+    return {"failures": fails, "stats": stats.dump(), "info": {"smallscope": f"round trip of all {classes} coloured graphs with n<={nmax} over {ncol} colours"}}
